@@ -213,12 +213,19 @@ fn cli_case_mode(dir: &Path, tag: &str, arch: &Arch, m: &Mutation, seed_file: Op
         seeds: if in_place { vec![] } else { seed_file.map(|x| vec![x.to_path_buf()]).unwrap_or_default() },
         seed_output: in_place,
         verify_output,
+        // The clone pipeline's width must not matter (derived from the corrupted bytes so
+        // that a case replays identically).
+        buffered: [None, Some(1), Some(2), None, Some(1), Some(16)][(bad.iter().fold(bad.len() as u64, |a, b| a.wrapping_mul(31).wrapping_add(*b as u64)) % 6) as usize],
         ..Default::default()
     };
     let mut run = Run::new(dir, tag, scn::clone_args(&spec));
     run.use_shim = false;
     run.rlimit_as = Some(4 << 30);
     run.timeout = std::time::Duration::from_secs(60);
+    if spec.buffered.is_none() && bad.len() % 3 == 1 {
+        // default width on a single-CPU machine
+        run.one_cpu = Some(bad.len());
+    }
     let o = proc::run(&run);
     let header = m.touches_header(arch.model.parsed.header_len, arch.bytes.len());
     let res = (|| {
@@ -623,7 +630,7 @@ fn lying_server(rep: &Report, seed: u64, tier: Tier) {
             }),
         );
         let out = dir.join("o.bin");
-        let cs = CloneSpec { archive: server.url(), output: out.clone(), verify_output: i % 4 == 0, ..Default::default() };
+        let cs = CloneSpec { archive: server.url(), output: out.clone(), verify_output: i % 4 == 0, buffered: [None, Some(1), Some(2)][(i / 4) % 3], ..Default::default() };
         let mut run = Run::new(&dir, "clone", scn::clone_args(&cs));
         run.use_shim = false;
         let o = proc::run(&run);
